@@ -5,9 +5,11 @@ pub mod kjson {
 
     /// objects are association lists, integers are visible through as_i64 only (serde_json also shows them
     /// through as_f64), floats through as_f64 only
-    #[derive(Clone, Debug, PartialEq, Default)]
-    pub enum J { #[default] Null, Bool(bool), Int(i64), Float(f64), Str(String), Arr(Vec<J>), Obj(Vec<(String, J)>) }
+    #[derive(Clone, Debug, PartialEq)]
+    pub enum J { Null, Bool(bool), Int(i64), Float(f64), Str(String), Arr(Vec<J>), Obj(Vec<(String, J)>) }
 
+    // a faithful implementation may have any Default: the engine must use null(), not default(), for `null`
+    impl Default for J { fn default() -> Self { J::Obj(vec![]) } }
     impl From<&str> for J { fn from(s: &str) -> Self { J::Str(s.to_string()) } }
     impl From<String> for J { fn from(s: String) -> Self { J::Str(s) } }
     impl From<bool> for J { fn from(s: bool) -> Self { J::Bool(s) } }
